@@ -151,6 +151,14 @@ def check(run, repo, world):
                "(`async with self._command_semaphore/_command_lock/_tx_lock`)",
                where(mod, call))
 
+    check_lock_pair(run, repo, world, fns)
+
+    # ---- R-EDT --------------------------------------------------------------
+    _check_edt(run, repo, world, fns)
+    _check_examples(run, repo)
+
+
+def check_lock_pair(run, repo, world, fns):
     # ---- R-LOCK-PAIR --------------------------------------------------------
     run.rule("R-LOCK-PAIR", "lock acquired in a function is released on "
              "every exit (normal, exception, cancellation); never released "
@@ -227,9 +235,6 @@ def check(run, repo, world):
                    "the running sequence is not closed on a %s exit" % what,
                    where(mod, F.fn))
 
-    # ---- R-EDT --------------------------------------------------------------
-    _check_edt(run, repo, world, fns)
-    _check_examples(run, repo)
 
 
 def _held_must(F, node):
